@@ -136,7 +136,8 @@ def build_and_audit(prop, tier, skip=False):
                                            why="" if ok else "generated table no longer equals the model's table"))
         res["axioms"] = sorted({a for v in axioms.values() for a in v})
         if tier == "thorough" and build_ok:
-            mods = [f"SCModel.Props.{prop}"]
+            # the property's own module, its extension modules and (where it serves the property) the Tie module
+            mods = list(targets)
             rc3, out3 = run(["lake", "env", "leanchecker"] + mods, timeout=3000)
             res["leanchecker"] = dict(rc=rc3, tail=out3[-300:])
             res["checker_cmd"] += " && lake env leanchecker " + " ".join(mods)
